@@ -87,11 +87,12 @@ PROPS = {
         "not_decided": ["element-for-element equality of values, NaN/ZST/extreme values, panics inside std", "lossy integer narrowing of values that the writer and the reader side both derive from one source (seeded change C01_d2: Huffman encode table narrowed to u32 codes; whether a value fits is value-level)", COMMON_ND],
     },
     "C02": {
-        "rules": [HF.r_bitcopy, A.r_append, A.r_freeze, A.r_foreign_writers, A.r_reject_stored, I.r_concat, CO.r_collapse_push, HF.r_chunk, HF.r_chunk_align,
+        "rules": [BR.r_bracket, HF.r_bitcopy, A.r_append, A.r_freeze, A.r_foreign_writers, A.r_reject_stored, I.r_concat, CO.r_collapse_push, HF.r_chunk, HF.r_chunk_align,
                   only(L.r_reset, INDEX_ONLY | DENSE_ONLY)],
         "thorough": [X.witness("C02")],
         "explanation": "Every body reachable from the write/reserve API (closures and local helpers included) is scanned for destructive, clearing or replacing effects on item storage; the one Vec::pop is justified by R-PEEL; the representation switches are guarded (R-GUARD).",
         "decided": [
+            "R-BRACKET also under C02: every push returns the bracket of what it appended (a canonical `(0, 0)` for an empty item breaks the dense offsets a wrapping region rebuilds items from)",
             "R-APPEND (whole-byte copies): no push path leaves foreign bits behind the bit cursor for the next item to be merged onto",
             "R-CHUNK (alignment): every (chunk, count) pair BitIterator::next returns shifts the byte by 8 - (cursor % 8) - count: the chunk starts at the cursor's offset within the byte (an item that starts and ends inside one byte is not read from the top of the byte)",
 
@@ -182,6 +183,7 @@ PROPS = {
                   only(L.r_reset, CODEC_ONLY | {"DictionaryCodec"}), only(L.r_fresh, CODEC_ONLY), CD.r_dedup, L.r_reserve_only, CD.r_update_weight, CD.r_decode_total, CD.r_bytesmap, CD.r_stats_order, CD.r_done_lossless, only(A.r_append, CODEC_ONLY | {"DictionaryCodec"})],
         "explanation": "Reader/writer table agreement and guard placement of the dictionary codec are decided on the MIR; selection quality of the heavy hitters is not.",
         "decided": [
+            "R-STATS (merge): new_from sums the complete rankings of its sources -- no take / truncate of a source's ranking before the sums",
             "R-STATS (done): what MisraGries::done returns does not depend on the allocation's capacity (new_from calls it on a clone)",
             "R-APPEND for the codec: encode never removes from / rewrites the reader or writer table",
             "R-GUARD: the literal store is reachable only over an edge that saw an empty input or an unassigned first byte in the reader's table",
@@ -230,9 +232,10 @@ PROPS = {
     "C11": {
         "rules": [CO.r_collapse_push, only(L.r_reset, CS_ONLY), only(L.r_fresh, CS_ONLY), L.r_clone,
                   only(SD.r_serde, CS_ONLY), L.r_reserve_only, CO.r_collapse_remembers, L.r_reset,
-                  I.r_concat, I.r_stride_iter, B.r_bound_stride_sites],
+                  I.r_concat, I.r_stride_iter, B.r_bound_stride_sites, BR.r_reader_writer],
         "explanation": "The collapse decision and the lifecycle of last_index are path properties of one small function and five lifecycle methods.",
         "decided": [
+            "R-READER also under C11: index() of the offsets region reads the two offsets of the item it is asked for (no shortcut that recognises the newest item by its start offset)",
             "R-CONCAT / R-ITER / R-BOUND for the index containers: the repeated indices a collapsing region hands out are read back clamped from a saturated stride, by index() and by iteration","R-COLLAPSE: early return only on the equality-true edge against inner.index(last_index), writes nothing; otherwise one inner.push whose result is remembered and returned",
                     "last_index is None after default/merge_regions/clear, copied by clone/clone_from (R-CLONE for every region it can be nested in), serialised",
                     "R-COLLAPSE (every writer): any method of CollapseSequence that stores an item in the inner region writes last_index on every path from that store to its return (batch hooks and helpers included)",
@@ -242,9 +245,10 @@ PROPS = {
     "C12": {
         "rules": [only(BR.r_bracket, DENSE_ONLY), only(L.r_seed, DENSE_ONLY), only(L.r_reset, DENSE_ONLY | INDEX_ONLY), L.r_storage_clear,
                   BR.r_reader_writer, BR.r_columns, only(A.r_append, DENSE_ONLY), only(L.r_fresh, DENSE_ONLY),
-                  BR.r_bracket, A.r_freeze, A.r_foreign_writers, A.r_reject_stored, I.r_concat, only(L.r_clone, DENSE_ONLY), O.r_onto, I.r_len_step, X.r_iter_readitems],
+                  BR.r_bracket, A.r_freeze, A.r_foreign_writers, A.r_reject_stored, I.r_concat, only(L.r_clone, DENSE_ONLY | INDEX_ONLY), O.r_onto, I.r_len_step, X.r_iter_readitems],
         "explanation": "Dense indices follow from one append of the end offset per push, the seeded leading 0 and index(k) = (offsets[k], offsets[k+1]).",
         "decided": [
+            "R-CLONE for the offset containers also under C12: clone_from of IndexOptimized / IndexList copies both levels on every path",
             "R-RESET for the offset containers (IndexOptimized / IndexList / Stride, and Storage::clear of std containers), including a `clear` that a trait provides and the impl inherits","R-BRACKET with seed 1 for ConsecutiveIndexPairs", "R-SEED: exactly one leading 0 in default/merge_regions/clear", "R-READER: index(k) reads offsets k and k+1 in order",
                     "R-COLUMNS: ColumnsRegion returns the inner dense index unchanged, creates missing columns first, rows carry exactly their own index slice",
                     "R-APPEND/R-FRESH for the two types: no write or reserve path drops columns or offsets",
